@@ -490,7 +490,21 @@ def r_commit_rule(ctx):
             # must-facts: majority literal over len(voters), and entry term == currentTerm
             for fs in res.facts_at(dn.id):
                 ctx.tick()
-                maj = [l for l in fs if l[0] in ('lt', 'le') and any(('len(self.%s)' % R.voters) in t.key for t in (l[1], l[2]))]
+                lenkey = 'len(self.%s)' % R.voters
+
+                def mentions_len(t, fs=fs, depth=0):
+                    # directly, or through a local the threshold was hoisted into (`half = (len(voters) + 1) / 2`)
+                    if lenkey in t.key:
+                        return True
+                    if depth > 2:
+                        return False
+                    for l2 in fs:
+                        if l2[0] == 'eq':
+                            for a_, b_ in ((l2[1], l2[2]), (l2[2], l2[1])):
+                                if a_ == t and a_.key != b_.key and mentions_len(b_, fs, depth + 1):
+                                    return True
+                    return False
+                maj = [l for l in fs if l[0] in ('lt', 'le') and any(mentions_len(t) for t in (l[1], l[2]))]
                 if not maj:
                     allok = False
                     ctx.violation('%s:commit-without-majority' % f.qualname, f.loc(d),
@@ -522,7 +536,24 @@ def r_commit_rule(ctx):
             return True
         defs = [d for d in U.walk_no_nested(f.node) if (isinstance(d, ast.Assign) and any(isinstance(t, ast.Name) and t.id == name for t in d.targets))
                 or (isinstance(d, ast.AugAssign) and isinstance(d.target, ast.Name) and d.target.id == name)]
-        if not defs:
+        # a loop variable ranging upwards from a growing start: `for c in range(<commit index> + k, ...)`
+        loops = [l for l in U.walk_no_nested(f.node) if isinstance(l, ast.For) and isinstance(l.target, ast.Name) and l.target.id == name]
+        for l in loops:
+            it = l.iter
+            if not (isinstance(it, ast.Call) and isinstance(it.func, ast.Name) and it.func.id in ('range', 'xrange') and 2 <= len(it.args) <= 3):
+                return False
+            if len(it.args) == 3 and not (isinstance(it.args[2], ast.Constant) and isinstance(it.args[2].value, int) and it.args[2].value > 0):
+                return False
+            start = it.args[0]
+            if isinstance(start, ast.BinOp) and isinstance(start.op, ast.Add) and isinstance(start.right, ast.Constant) and isinstance(start.right.value, int) \
+                    and start.right.value >= 0:
+                start = start.left
+            if P.self_attr(start, f.self_name) == R.commitIndex:
+                continue
+            if isinstance(start, ast.Name) and only_grows(start.id, seen + (name,)):
+                continue
+            return False
+        if not defs and not loops:
             return False
         for d in defs:
             if isinstance(d, ast.AugAssign):
@@ -905,7 +936,7 @@ def r_leader_append_position(ctx):
     bl = become_leader_func(ctx)
     if bl:
         b = bl[0]
-        noops = [c for f, c in sites if f is b and c.args and any(isinstance(x, ast.Attribute) and x.attr == 'NO_OP' for x in ast.walk(c.args[0]))]
+        noops = [c for f, c in sites if f is b and c.args and any(isinstance(x, ast.Attribute) and x.attr == 'NO_OP' for x in ast.walk(U.deref(P, b, c.args[0])))]
         inst = 'new leader appends a no-op of its own term'
         ctx.tick()
         if noops:
